@@ -46,9 +46,14 @@ ENDLESS = [k for k, v in PROGRAMS.items() if not v[2]]
 PP_EVAL = {"pp_eval": ("R = __EVAL(1 + 1);\n", False), "pp_eval_endless": ("R = __EVAL(call {while {true} do {N = 1}; 1});\n", True)}
 
 
+# a script executed with the step actions: every step is a run of its own as far as the limit is concerned
+STEPPED = {"step_short": "assembly_step", "line_short": "line_step", "leave_short": "leave_scope"}
+HUGE_LIMIT = 9300000000000      # ms; more nanoseconds than a 64 bit time point holds
+
+
 @st.composite
 def _cases(draw):
-    limit = draw(st.sampled_from([0, 5, 20, 100, 500, 3000]))
+    limit = draw(st.sampled_from([0, 5, 20, 100, 500, 3000, 3000, HUGE_LIMIT]))
     cap = draw(st.sampled_from([1, 2, 7, 50, 300, 10000]))
     n = draw(st.integers(1, 5))
     runs = []
@@ -56,8 +61,11 @@ def _cases(draw):
         if limit == 0:
             prog = draw(st.sampled_from(["short", "short_sched", "while_empty", "while_body", "while_empty_nested", "pp_eval"]))
         else:
-            prog = draw(st.sampled_from(list(PROGRAMS) + ["pp_eval", "pp_eval", "pp_eval_endless"]))
-        adv = draw(st.sampled_from([0, 0, 1, limit * 2 + 10, 100000]))
+            prog = draw(st.sampled_from(list(PROGRAMS) + ["pp_eval", "pp_eval", "pp_eval_endless"] + list(STEPPED) * 2))
+        if limit == HUGE_LIMIT:
+            # nothing is cut by such a limit: only programs that end by themselves (or by the loop cap) are run
+            prog = draw(st.sampled_from(["short", "short_sched", "pp_eval"] + list(STEPPED)))
+        adv = draw(st.sampled_from([0, 0, 1, limit * 2 + 10, 100000])) if limit != HUGE_LIMIT else draw(st.sampled_from([0, 1, 100000]))
         runs.append(dict(prog=prog, advance_ms=adv))
     return dict(limit_ms=limit, cap=cap, runs=runs)
 
@@ -101,6 +109,31 @@ def check(case, env):
             if endless_eval and limit and t_ms > limit + 2.5 and not (cap * 2 < limit):
                 v = viol("deadline-overrun|" + run["prog"], ctx + "the evaluation took %.0f ms of virtual time, limit is %d ms" % (t_ms, limit))
                 break
+            continue
+        if run["prog"] in STEPPED:
+            if limit and elapsed_before > limit:
+                labs.add("old_vm")
+            labs.add("stepped")
+            action = STEPPED[run["prog"]]
+            src = "T = []; T pushBack 1;\nT pushBack 2;\ncall { T pushBack 3 };\nT pushBack 4;"
+            r.cmd(dict(op="clearvars", vm=0))
+            r.cmd(dict(op="load", vm=0, sqf=src, file="/c11/step.sqf"))
+            last, steps, cutlogs = None, 0, []
+            for steps in range(200):
+                last = r.cmd(dict(op="action", vm=0, action=action))
+                cutlogs += [l for l in last.get("logs", []) if l.get("c") == 60002]
+                if last["result"] != "ok" or last.get("state") == "empty":
+                    break
+            rep = r.cmd(dict(op="getvar", vm=0, name="T"))
+            got = vm_value(rep["value"]) if rep.get("exists") else None
+            ctx = "limit=%d ms cap=%d, run %d/%d: %r loaded and executed with %s (clock advanced %d ms before it, %d ms since VM creation)\n  %d steps, last result=%s state=%s T=%s\n" % (
+                limit, cap, idx + 1, len(case["runs"]), src, action, run["advance_ms"], elapsed_before, steps + 1, last.get("result"), last.get("state"), got)
+            if cutlogs or got != [1.0, 2.0, 3.0, 4.0]:
+                v = viol("stepped-run-aborted|" + action + "|" + ("old-vm" if elapsed_before > limit > 0 else "fresh"), ctx + "a terminating script was not executed to its end by the step action%s" % (
+                    " (cut by the time limit: %s)" % cutlogs[0]["m"][:80] if cutlogs else ""))
+                break
+            if last.get("state") != "empty":
+                r.cmd(dict(op="action", vm=0, action="abort"))
             continue
         text, sched, terminates, capped = PROGRAMS[run["prog"]]
         r.cmd(dict(op="clearvars", vm=0))
